@@ -31,10 +31,11 @@ inductive Flag
   | absent | commit | nil
 deriving DecidableEq, Repr
 
+/-- a validator; `power` is positive in every `ValidatorSet` the code can build, so it is a `Nat` -/
 structure Val where
   addr : Nat
   key : Nat
-  power : Int
+  power : Nat
 deriving DecidableEq, Repr
 
 /-- what a precommit signature covers (`Commit.VoteSignBytes`): `blockId = none` is a nil vote -/
@@ -65,6 +66,8 @@ structure Block where
   prevId : BlockId           -- `Header.LastBlockID`
   lastCommit : Commit
   flawed : Bool              -- some other header field `validateBlock` compares is wrong (AppHash)
+  nextVals : Option (List Val)  -- the validator set `EndBlock` of this block's execution produces
+                                -- (`none` = no validator updates); a function of the block's txs
 deriving DecidableEq, Repr
 
 /-- `Commit.VoteSignBytes(chainID, idx)` -/
@@ -78,7 +81,7 @@ inductive VErr
   | size | height | blockId | wrongSig (idx : Nat) | notEnough
 deriving DecidableEq, Repr
 
-def totalPower (vals : List Val) : Int := (vals.map (·.power)).sum
+def totalPower (vals : List Val) : Int := (vals.map (fun v => (v.power : Int))).sum
 
 /-- `votingPowerNeeded := vals.TotalVotingPower() * 2 / 3` -/
 def needed (vals : List Val) : Int := totalPower vals * 2 / 3
@@ -128,8 +131,9 @@ structure St where
   initialHeight : Int
   lastHeight : Int           -- `LastBlockHeight`
   lastId : BlockId           -- `LastBlockID`
-  vals : List Val            -- `Validators` (constant: the application never updates them)
-  lastVals : List Val        -- `LastValidators`
+  vals : List Val            -- `Validators` (the set for height `lastHeight + 1`)
+  nextVals : List Val        -- `NextValidators` (for `lastHeight + 2`)
+  lastVals : List Val        -- `LastValidators` (the set that committed `lastHeight`)
 deriving DecidableEq, Repr
 
 inductive BErr
@@ -153,9 +157,11 @@ def validate (st : St) (b : Block) : Except BErr Unit :=
 
 end
 
-/-- the part of `updateState` that matters here -/
+/-- the part of `updateState` that matters here: the sets shift by one height, validator updates
+of block `h` become `NextValidators` (in force at `h + 2`) -/
 def applyBlock (st : St) (b : Block) : St :=
-  { st with lastHeight := b.height, lastId := b.id, lastVals := st.vals }
+  { st with lastHeight := b.height, lastId := b.id, lastVals := st.vals, vals := st.nextVals,
+            nextVals := b.nextVals.getD st.nextVals }
 
 /-! ### the pool (blockchain/v0/pool.go) -/
 
@@ -351,8 +357,12 @@ structure Node where
   stopped : List Nat                -- `StopPeerForError` calls, newest first
 deriving DecidableEq, Repr
 
-def Node.new (st : St) : Node :=
-  ⟨Pool.new (if st.lastHeight + 1 = 1 then st.initialHeight else st.lastHeight + 1), st, [], [], []⟩
+/-- `NewBlockchainReactor`: `startHeight := store.Height() + 1; if startHeight == 1 { startHeight =
+state.InitialHeight }` (state and store heights are equal, else it panics) -/
+def startHeight (st : St) : Int :=
+  if st.lastHeight + 1 = 1 then st.initialHeight else st.lastHeight + 1
+
+def Node.new (st : St) : Node := ⟨Pool.new (startHeight st), st, [], [], []⟩
 
 /-- `Switch.StopPeerForError(peer, …)` for a peer in the peer set: stop, `RemovePeer` on the
 reactor (→ `pool.RemovePeer`), drop from the set -/
@@ -497,6 +507,13 @@ def Node.handover (n : Node) : Handover :=
   if !n.pool.isCaughtUp then .notCaughtUp
   else if n.st.lastHeight > 0 then reconstruct sigOK n.st n.store else .ok
 
+/-- the node process restarts while still syncing: `consensus.NewState(state, …)` reconstructs the
+last commit when `state.LastBlockHeight > 0` (a panic aborts start-up); then a new reactor, pool
+and switch are built on the same stores (`NewBlockchainReactor`) -/
+def Node.restart (n : Node) : Node × Handover :=
+  let r := if n.st.lastHeight > 0 then reconstruct sigOK n.st n.store else .ok
+  if r = .ok then ({ Node.new n.st with store := n.store }, .ok) else (n, r)
+
 end
 
 /-! ### operations a run consists of (everything peers and the scheduler can make happen) -/
@@ -512,6 +529,7 @@ inductive Op
   | rtimeout (h : Int)
   | peerTimeout (id : Nat)       -- `bpPeer.onTimeout` and what its error on `errorsCh` causes
   | process
+  | restart
 deriving Repr
 
 /-- `onTimeout` marks the peer and sends an error on `errorsCh`; `poolRoutine` stops the peer for
@@ -531,6 +549,7 @@ def Node.apply (sigOK : Nat → SignBytes → Nat → Bool) (n : Node) : Op → 
   | .rtimeout h => { n with pool := (n.pool.rtimeout h).1 }
   | .peerTimeout id => n.peerTimeout id
   | .process => (n.processStep sigOK).1
+  | .restart => (n.restart sigOK).1
 
 def Node.run (sigOK : Nat → SignBytes → Nat → Bool) (n : Node) (ops : List Op) : Node :=
   ops.foldl (Node.apply sigOK) n
